@@ -483,6 +483,28 @@ def compound_attacks(tier):
                     except Exception:  # noqa
                         continue
 
+    # a file count admitted by the one-bit-per-item bound thanks to zero padding BEHIND the header's END mark (free in a packed header):
+    # 2,000,000 declared files in an archive of 183 bytes whose header legitimately unpacks to 250 KB
+    import lzma
+
+    def _u64(v):
+        for n in range(8):
+            if v < 1 << (7 * n + 7):
+                return bytes([((0xFF00 >> n) & 0xFF) | (v >> (8 * n))]) + (v & ((1 << (8 * n)) - 1)).to_bytes(n, "little")
+        return b"\xff" + v.to_bytes(8, "little")
+
+    for nfiles, pad in ((2_000_000, 250_000),):
+        hdr = b"\x01\x05" + _u64(nfiles) + b"\x00\x00" + bytes(pad)
+        filt = {"id": lzma.FILTER_LZMA1, "dict_size": 1 << 16}
+        props = lzma._encode_filter_properties(filt)
+        pk = lzma.compress(hdr, format=lzma.FORMAT_RAW, filters=[filt])
+        eh = b"\x17\x06" + _u64(0) + _u64(1) + b"\x09" + _u64(len(pk)) + b"\x00"
+        eh += b"\x07\x0b\x01\x00" + b"\x01" + bytes([0x23]) + b"\x03\x01\x01" + _u64(len(props)) + props + b"\x0c" + _u64(len(hdr))
+        eh += b"\x0a\x01" + struct.pack("<L", zlib.crc32(hdr) & 0xFFFFFFFF) + b"\x00\x00"
+        start = struct.pack("<QQL", len(pk), len(eh), zlib.crc32(eh) & 0xFFFFFFFF)
+        yield (f"padded packed header: numfiles := {nfiles} behind {pad} zero bytes",
+               b"7z\xbc\xaf\x27\x1c\x00\x04" + struct.pack("<L", zlib.crc32(start) & 0xFFFFFFFF) + start + pk + eh)
+
     # many declared items that the data really backs (one byte each): work must stay linear in the size of the input
     files = [{"name": f"f{i}", "kind": "file", "data": b"x"} for i in range(10)]
     raw, _ = write_archive({"files": files, "folders": [{"nfiles": 1, "coders": [{"id": "copy"}], "crc": "none"} for _ in range(10)], "header": "raw"})
